@@ -48,7 +48,7 @@ KINDS = {'dc': 'KDc', 's': 'KS', 'ivp': 'KIvp', 'laplace': 'KLaplace', 'transien
 CNAMES = ['RC', 'L', 'V', 'AM', 'I', 'VCVS', 'VCCS', 'CCCS', 'CCVS', 'K', 'TF', 'GY', 'TL', 'TPA', 'TPB', 'TPG', 'TPH',
           'TPY', 'TPZ', 'TR', 'SPpp', 'SPpm', 'SPppp', 'SPpmm', 'SPppm', 'RV', 'Dummy']
 PNAMES = ['pY', 'pZ', 'pIsc', 'pVoc', 'pArg0', 'pArg1', 'pAlpha', 'pEps', 'pA11', 'pA12', 'pA21', 'pA22',
-          'pY11', 'pY12', 'pY21', 'pY22', 'pZM0', 'pZM1', 'pZL1', 'pZL2', 'pK']
+          'pY11', 'pY12', 'pY21', 'pY22', 'pZM0', 'pZM1', 'pZL1', 'pZL2', 'pK', 'pZM2', 'pI01', 'pI02']
 
 
 def q(x, F='Q'):
@@ -548,6 +548,9 @@ CORPUS = [
     {'netlist': ['H1 2 0 V1 3', 'R2 2 0 1', 'V1 1 0 dc 4', 'R1 1 0 2'], 'tags': ['corpus'], 's0': '2/1', 'methods': ['DM', 'LU']},
     {'netlist': ['V1 1 0 step 5', 'R1 1 2 2', 'C1 2 0 3 4', 'L1 2 3 5 1', 'R2 3 0 7', 'E1 4 0 2 0 3', 'R3 4 3 1'], 'tags': ['corpus'], 's0': '3/2', 'methods': ['DM', 'LU', 'GE']},
     {'netlist': ['V1 1 0 dc 6', 'R1 1 2 3', 'C1 2 0 2', 'R2 2 0 4', 'L1 2 3 1', 'R3 3 0 5'], 'tags': ['corpus', 'dc'], 's0': '1/1', 'methods': ['DM']},
+    # coupled inductors with initial currents (mutual initial-condition term, fixed finding of C02)
+    {'netlist': ['L1 1 0 2 3', 'R1 1 0 1', 'L2 2 0 2 1', 'R2 2 0 1', 'K1 L1 L2 {1/2}'], 'tags': ['corpus', 'K', 'ic'], 's0': '3/2', 'methods': ['DM', 'LU']},
+    {'netlist': ['V1 1 0 step 2', 'R1 1 2 1', 'L1 2 0 8 -1', 'L2 3 0 2', 'R2 3 0 4', 'K1 L2 L1 {3/4}', 'C1 3 0 1 2'], 'tags': ['corpus', 'K', 'ic'], 's0': '2/1', 'methods': ['DM']},
     # phasor (ac) analysis over the Gaussian rationals: sources with quarter-turn phases, two frequencies + dc
     {'netlist': ['I1 1 0 ac 2 {pi/2} 3', 'R1 1 2 2', 'C1 2 0 {1/3}', 'R2 1 0 1'], 'tags': ['corpus', 'ac'], 's0': '2/1', 'methods': ['DM', 'LU'], 'api': False},
     {'netlist': ['V1 1 0 ac 5 {-pi/2} 2', 'R1 1 2 2', 'L1 2 3 2', 'I1 3 0 ac 2 {pi/2} 2', 'R2 3 0 1', 'V2 3 4 dc 2', 'R3 4 0 1',
